@@ -62,6 +62,9 @@ def leaf_text(i, kind):
         return 'cK.v:yes'
     if kind == 'chi':
         return 'ck.v:yes'
+    if kind == 'op':
+        # a role name with an opening parenthesis inside
+        return 'role:p(%d' % i
     if kind == 'sq':
         # a role name that carries ONE stray quote character
         return "role:o'r%d" % i
@@ -83,6 +86,9 @@ def realise(kinds, mask):
         elif k == 'sq':
             if v:
                 creds['roles'].append("o'r%d" % i)
+        elif k == 'op':
+            if v:
+                creds['roles'].append('p(%d' % i)
         elif k == 'path':
             creds['%s%d' % (PATH_PREFIX[i % 4], i)] = {'v': 'yes' if v
                                                        else 'no'}
@@ -227,6 +233,8 @@ def run_T(cx, job):
                                    for i in range(k)))
         if k >= 2:
             labelings.append(('sq',) * k)
+            labelings.append(('role',) * (k - 1) + ('op',))
+            labelings.append(('op',) * k)
             labelings.append(('clo', 'chi') + ('role',) * (k - 2))
             labelings.append(('role',) * (k - 2) + ('chi', 'clo'))
         if k <= 3:
@@ -239,7 +247,8 @@ def run_T(cx, job):
             idx += 1
             if idx % job['of'] != job['shard']:
                 continue
-            kinds = tuple(x if x in KINDS + ('clo', 'chi', 'sq') else 'role'
+            kinds = tuple(x if x in KINDS + ('clo', 'chi', 'sq', 'op')
+                          else 'role'
                           for x in lab)
             leafs = [x if x in '@!' else leaf_text(i, x)
                      for i, x in enumerate(lab)]
